@@ -24,6 +24,7 @@ CONSTANTS
   ResetSeparate = FALSE
   JumpToFirstAvailable = FALSE
   ReportOnlyIfBitSet = FALSE
+  ResendWithoutCheck = FALSE
 SPECIFICATION FairSpec
 PROPERTIES C03_Live
 CHECK_DEADLOCK FALSE
